@@ -35,11 +35,36 @@ def interesting_scalar(rng, k):
                        0x80000000 if k == 4 else rng.getrandbits(8 * k), rng.getrandbits(8 * k)])
 
 
+def structured_bytes(rng, n, force_nul=False):
+    """byte strings the C string functions would mistreat: embedded / leading / trailing NUL,
+    all zero, all ones — next to plain random content"""
+    kind = "nul" if force_nul else rng.choice(["random", "random", "nul", "nul-first", "nul-last", "zeros", "ones"])
+    b = bytearray(rng.getrandbits(8) for _ in range(n))
+    if n == 0:
+        return bytes(b)
+    if kind == "nul":
+        for i in range(n):
+            if b[i] == 0:
+                b[i] = 0x41
+        b[n // 3] = 0
+        if n > 4:
+            b[n // 2] = 0
+    elif kind == "nul-first":
+        b[0] = 0
+    elif kind == "nul-last":
+        b[n - 1] = 0
+    elif kind == "zeros":
+        b = bytearray(n)
+    elif kind == "ones":
+        b = bytearray([0xff] * n)
+    return bytes(b)
+
+
 def gen_path(rng, mode, thorough):
     if mode == 1:
         return ("sid", rng.choice([0, 1, (1 << 32) - 1, rng.getrandbits(32)]))
     n = rng.choice([0, 1, 2, 3, 13, 255, 256, rng.randrange(0, 64), 2031, 2040, 3000] + ([1000, 4093] if thorough else []))
-    return ("path", bytes(rng.getrandbits(8) for _ in range(n)))
+    return ("path", structured_bytes(rng, n))
 
 
 def long_paths(rng, thorough=True):
@@ -50,12 +75,12 @@ def enc_path(p):
     return be(4, p[1]) if p[0] == "sid" else be(2, len(p[1])) + p[1]
 
 
-def gen_value(rng, code, thorough):
+def gen_value(rng, code, thorough, force_nul=False):
     if code in SCALARS:
         return ("s", interesting_scalar(rng, SCALARS[code]))
     if code in BLOBS:
-        n = rng.choice([0, 1, 2, 3, 255, 256, rng.randrange(0, 80)] + ([3000] if thorough else []))
-        return ("b", bytes(rng.getrandbits(8) for _ in range(n)))
+        n = rng.choice(([5, 9, 40] if force_nul else [0, 1, 2, 3, 255, 256, rng.randrange(0, 80)]) + ([3000] if thorough else []))
+        return ("b", structured_bytes(rng, n, force_nul))
     k = ELEMS[code]
     cnt = rng.choice([0, 1, 2, 3, 7, rng.randrange(0, 40)] + ([300] if thorough else []))
     return ("e", k, [interesting_scalar(rng, k) for _ in range(cnt)])
@@ -87,7 +112,7 @@ def c07_cases(rng, thorough):
         for code in codes:
             for rep in range(4 if thorough else 2):
                 p = gen_path(rng, mode, thorough)
-                v = gen_value(rng, code, thorough)
+                v = gen_value(rng, code, thorough, force_nul=(rep == 0))
                 ep, ev = enc_path(p), enc_value(code, v)
                 off = rng.choice([0, 0, 4])
                 trail = rng.choice([0, 0, 3])
@@ -159,7 +184,7 @@ def c08_cases(rng, thorough):
         for code in codes:
             for rep in range(4 if thorough else 2):
                 p = gen_path(rng, mode, thorough)
-                v = gen_value(rng, code, thorough)
+                v = gen_value(rng, code, thorough, force_nul=(rep == 0))
                 ep, ev = enc_path(p), enc_value(code, v)
                 off = rng.choice([0, 2, 4, 5])
                 hdr = vss_header(rng, mode, code)
